@@ -330,6 +330,24 @@ def smooth_body(c):
     xi = tr.inv(torch.tensor(want))
     if maxabs(xi, arr(x)) > 1e-8 * max(1.0, float(np.max(want))) or tuple(xi.shape) != tuple(x.shape):
         return res.fail("smooth_inverse", {"x": arr(x).tolist(), "inv": arr(xi).tolist(), "k": k})
+    # ---- the same transform installed in the model: a device move / dtype round trip keeps it in force
+    move = c.get("move", "none")
+    res.labels = res.labels + ("move=" + move,)
+    res.tags["op"] = move
+    tree.transform = tr
+    dic["shifts"].tensor = torch.tensor(rows[-1][0])
+    first = arr(tree.node_heights).reshape(-1)[n:]
+    if move == "cpu":
+        tree.cpu()
+    elif move == "to64":
+        tree.to(torch.float32)
+        tree.to(torch.float64)
+    dic["shifts"].tensor = torch.tensor(rows[-1][0], dtype=torch.float64)
+    after = arr(tree.node_heights).reshape(-1)[n:]
+    w = np.array(want[-1] if c["B"] else want)
+    mtol = (1e-4 if move == "to64" else 1e-9) * max(1.0, float(np.max(w)))
+    if maxabs(first, w) > tol or maxabs(after, w) > mtol:
+        return res.fail("parameterisation_changed", {"before_move": first.tolist(), "after_move": after.tolist(), "want": w.tolist(), "k": k, "move": move})
     return res
 
 
@@ -342,6 +360,7 @@ def smooth_case(draw):
     c["tree"] = t
     c["extra"] = [{"shifts": draw(phylo.tree_part(n, ("shift",)))["shifts"]} for _ in range(max(0, c["B"] - 1))]
     c["k"] = draw(st.sampled_from([0.5, 2.0, 5.0, 20.0, draw(logu(0.2, 50.0))]))
+    c["move"] = draw(st.sampled_from(["none", "cpu", "cpu", "to64"]))
     return c
 
 
